@@ -266,7 +266,14 @@ def scripts(ck, n, label, **genkw):
                 hist['skip:empty-ungrouped-aggregate'] += 1
                 ck.count(None, nontrivial=False)
                 continue
-            if kind == 'value' and d['measure'] in c['viral']:
+            vrule = c['spec'].get(d['measure'], (None, None))[1] if kind == 'value' else None
+            no_unary = [v for v, (_, rule) in c['spec'].items() if rule.kind == 'enum' and rule.default is None and not any(len(vs) == 1 for vs, _ in rule.clauses)]
+            if kind == 'value' and vrule is not None and vrule.fn == 'avg' and c['spec'][d['measure']][0] == 'Integer' and \
+                    isinstance(d['engine'], (int, float)) and abs(Fraction(d['model']) - Fraction(d['engine'])) < 1:
+                key = 'integer-viral-attribute:avg-rule:average-rounded-to-integer'
+            elif kind == 'engine-error' and base[0] == 'raw' and 'ConversionException' in base[1] and 'Could not convert string' in str(base[-1]) and no_unary:
+                key = 'enum-rule:no-one-value-clause-no-default:untyped-NULL-column:ConversionException'
+            elif kind == 'value' and d['measure'] in c['viral']:
                 key = 'script:%s:%s:wrong-viral-value' % (c['ops'][-1], rule_kind(c))
             elif kind == 'engine-error' and base[0] == 'raw':
                 key = 'script:%s:%s:%s' % (c['ops'][-1], base[1].split('.')[-1], ' '.join(str(base[-1]).split()[:4]))
@@ -380,6 +387,10 @@ def replays(ck):
     env_m = {'DS_1': dict(st, rows=[(1, Fraction(1), 'A'), (2, Fraction(2), 'B')])}
     vtl_m = GV.PRIO.vtl('R', 'VAt_1') + ' DS_r <- DS_1#Me_1;'
     jobs.append((vtl_m, GV.structures(env_m), env_m, None, 240, False))
+    rule_n = GV.Rule('enum', [(('A', None), 'B')], None)
+    env_n = {'DS_1': dict(st, rows=[(1, Fraction(1), 'A'), (2, Fraction(2), 'B')])}
+    vtl_n = rule_n.vtl('R', 'VAt_1') + ' T_1 := DS_1 + 3; DS_r <- T_1 + T_1;'
+    jobs.append((vtl_n, GV.structures(env_n), env_n, None, 240, False))
     outs = run_pool(jobs, procs=8)
     for name, key, chunk, script in (('aggregation', 'row-order-dependence:aggregation:enumerated-rule', outs[:6], vtl),
                                      ('analytic', 'row-order-dependence:analytic:enumerated-rule', outs[6:12], vtl_an)):
@@ -402,6 +413,13 @@ def replays(ck):
     if o[0] == 'raw':
         ck.violation('enum-rule:non-string-constant:raw-%s' % o[1].split('.')[-1], {'script': vtl_i, 'structures': GV.structures(env_i), 'engine': str(o)},
                      'an enumerated rule whose clause values are Integer constants crashes run() with %s' % (o[1:],))
+    o = outs[14]
+    ck.count(('replay', 'untyped-null'), nontrivial=True)
+    if o[0] == 'raw' and 'ConversionException' in o[1]:
+        ck.violation('enum-rule:no-one-value-clause-no-default:untyped-NULL-column:ConversionException',
+                     {'script': vtl_n, 'structures': GV.structures(env_n), 'engine': str(o)},
+                     'a row-preserving operator under an enumerated rule without one-value clause and default writes an untyped NULL column; the next '
+                     'statement that combines it fails with a raw ConversionException')
     o = outs[13]
     ck.count(('replay', 'membership'), nontrivial=True)
     if o[0] == 'ok' and o[1].get('DS_r', ('',))[0] == 'ds-mismatch':
